@@ -34,7 +34,10 @@ use std::default::Default;
 use std::sync::atomic::AtomicBool;
 use std::sync::atomic::Ordering;
 use std::sync::Arc;
+#[cfg(not(mmtk_verif))]
 use std::sync::Mutex;
+#[cfg(mmtk_verif)]
+use crate::util::verif::sync::Mutex;
 
 lazy_static! {
     // I am not sure if we should include these mmappers as part of MMTk struct.
